@@ -68,7 +68,72 @@ PAIR_CALIB = dict(r=0.01, eis=0.6, rho_e=0.9, sd_e=0.7, nE=3, amin=0.0, amax=80.
 # ---- one-asset household whose Markov matrix is an ordinary (directly shockable) input --------------------------------
 sim_direct = hetblocks.hh_sim.hh.add_hetinputs([sim_income])
 
-# ---- the same process split in two independent exogenous dimensions, and their Kronecker product ---------
+# ---- the same process as two independent exogenous dimensions, and as their Kronecker product (as in tests/base/test_multiexog.py) ----
+import sequence_jacobian as sj
+from sequence_jacobian import het
+
+def household_init(a_grid, y, r, sigma):
+    c = np.maximum(1e-8, y[..., np.newaxis] + np.maximum(r, 0.04) * a_grid)
+    Va = (1 + r) * (c ** (-sigma))
+    return Va
+
+@het(exogenous=['Pi_e', 'Pi_z'], policy='a', backward='Va', backward_init=household_init)
+def household_multidim(Va_p, a_grid, y, r, beta, sigma):
+    c_nextgrid = (beta * Va_p) ** (-1 / sigma)
+    coh = (1 + r) * a_grid + y[..., np.newaxis]
+    a = sj.utilities.interpolate.interpolate_y(c_nextgrid + a_grid, coh, a_grid)
+    a = np.maximum(a, a_grid[0])
+    c = coh - a
+    uc = c ** (-sigma)
+    Va = (1 + r) * uc
+    return Va, a, c
+
+@het(exogenous='Pi', policy='a', backward='Va', backward_init=household_init)
+def household_onedim(Va_p, a_grid, y, r, beta, sigma):
+    c_nextgrid = (beta * Va_p) ** (-1 / sigma)
+    coh = (1 + r) * a_grid[np.newaxis, :] + y[:, np.newaxis]
+    a = sj.utilities.interpolate.interpolate_y(c_nextgrid + a_grid, coh, a_grid)
+    sj.utilities.optimized_routines.setmin(a, a_grid[0])
+    c = coh - a
+    uc = c ** (-sigma)
+    Va = (1 + r) * uc
+    return Va, a, c
+
+def _shift(P, s):
+    Q = P.copy()
+    Q[:, 0] -= s
+    Q[:, -1] += s
+    return Q
+
+def alter_e(Pi_e0, shift_e):
+    Pi_e = _shift(Pi_e0, shift_e)
+    return Pi_e
+
+def alter_z(Pi_z0, shift_z):
+    Pi_z = _shift(Pi_z0, shift_z)
+    return Pi_z
+
+def income_multi(e1, e2, w):
+    y = w * np.outer(e1, e2)
+    return y
+
+def alter_kron(Pi_e0, Pi_z0, shift_e, shift_z):
+    Pi = np.kron(_shift(Pi_e0, shift_e), _shift(Pi_z0, shift_z))
+    return Pi
+
+def income_kron(e1, e2, w):
+    y = w * np.kron(e1, e2)
+    return y
+
+multi = household_multidim.add_hetinputs([alter_e, alter_z, income_multi])
+kron = household_onedim.add_hetinputs([alter_kron, income_kron])
+
+def multi_calib():
+    e1, _, Pi1 = sj.utilities.discretize.markov_rouwenhorst(rho=0.7, sigma=0.6, N=2)
+    e2, _, Pi2 = sj.utilities.discretize.markov_rouwenhorst(rho=0.4, sigma=0.4, N=3)
+    return dict(beta=0.94, r=0.02, sigma=1.5, w=1.0, a_grid=sj.utilities.discretize.agrid(40, 20), e1=e1, e2=e2, Pi_e0=Pi1, Pi_z0=Pi2, shift_e=0.0, shift_z=0.0)
+
+# ---- (unused placeholder) ---------
 def two_grids(rho_e, sd_e, n_e, rho_f, sd_f, n_f, min_a, max_a, n_a):
     e1, _, Pi_e = grids.markov_rouwenhorst(rho_e, sd_e, n_e)
     e2, _, Pi_f = grids.markov_rouwenhorst(rho_f, sd_f, n_f)
